@@ -868,6 +868,26 @@ def worker_xsh(arg):
     return st
 
 
+def _spans_lines(text):
+    """a bracket or a string literal of this Python text is open across a line break"""
+    import tokenize
+
+    depth = 0
+    try:
+        for t in tokenize.generate_tokens(io.StringIO(text).readline):
+            if t.type == tokenize.OP and t.string in "([{":
+                depth += 1
+            elif t.type == tokenize.OP and t.string in ")]}":
+                depth -= 1
+            elif t.type == tokenize.NL and depth > 0:
+                return True
+            elif t.start[0] != t.end[0] and t.type not in (tokenize.NEWLINE, tokenize.NL):
+                return True
+    except (tokenize.TokenError, IndentationError, SyntaxError):
+        return True
+    return False
+
+
 def _py_stmt(rnd, st, names):
     """A generated Python statement (text, may span lines) for the mixtures; None when unavailable.
     Its identifiers are added to `names` (they are known names while the mixture is parsed)."""
@@ -885,6 +905,11 @@ def _py_stmt(rnd, st, names):
     except (SyntaxError, ValueError, RecursionError, MemoryError):
         return None
     text = stylist.Styler(rnd).restyle(src, max_transforms=2)
+    # every physical line a complete logical line: xonsh's line-wise recovery garbles Python statements that span
+    # lines once they sit between command lines (multi-line Python is family (a)'s business)
+    if "\\\n" in text or _spans_lines(text):
+        st.hist["mixture:python-statement-skipped-multiline"] += 1
+        return None
     # the same precondition as family (a): the C01 oracle holds and no recorded C01 shape occurs
     r = pyoracle.compare(text, "exec", do_compile=False)
     if r.kind != "ok" or c01_findings.features(pyoracle.prep(text, "exec"), r.ctree):
